@@ -1362,6 +1362,13 @@ class Interp:
             if ty is not None and is_ref(strip_opt(ty)):
                 cls = strip_opt(ty)[1]
                 v = self.new_dict(st, cls) if REG.get(cls).kind != "list" else self.new_list(st, cls)
+        if v.ty == "NoneT" and isinstance(s.target, ast.Name):
+            # `x: Optional[T] = None`: keep the declared type so that specs can speak about x.attr under a guard
+            from . import calls
+            ty = calls.annotation_type(self, st, s.annotation)
+            if ty is not None and is_opt(ty) and strip_opt(ty) not in ("Any", None):
+                from .vtypes import mk_none
+                v = mk_none(ty)
         self.assign(st, s.target, v)
 
     def s_AugAssign(self, st, s):
